@@ -19,6 +19,10 @@ pub trait Lock {
         T: 'a;
     type SubscriberState<S>;
 
+    /// The number of strong references to the shared state held by one
+    /// subscriber.
+    const REFS_PER_SUBSCRIBER: usize;
+
     fn new_rwlock<T>(value: T) -> Self::RwLock<T>;
     fn read_noblock<T>(lock: &Self::RwLock<T>) -> Self::RwLockReadGuard<'_, T>;
 
@@ -47,6 +51,8 @@ impl Lock for SyncLock {
     where
         T: 'a;
     type SubscriberState<S> = readlock::SharedReadLock<ObservableState<S>>;
+
+    const REFS_PER_SUBSCRIBER: usize = 1;
 
     fn new_rwlock<T>(value: T) -> Self::RwLock<T> {
         Self::RwLock::new(value)
@@ -88,6 +94,10 @@ impl Lock for AsyncLock {
     where
         T: 'a;
     type SubscriberState<S> = crate::subscriber::async_lock::AsyncSubscriberState<S>;
+
+    // An async subscriber holds its read lock plus a clone of it inside the
+    // prepared `lock_owned` future.
+    const REFS_PER_SUBSCRIBER: usize = 2;
 
     fn new_rwlock<T>(value: T) -> Self::RwLock<T> {
         Self::RwLock::new(value)
